@@ -294,7 +294,8 @@ def small_trees(max_entries):
 class Config:
     def __init__(self, recursive=True, root_type="str", full=False, event_filter=None, early=False,
                  split_reads=False, second_filter=None, probes=True, faults=None, seam_points=True,
-                 outside_ops=True, root_form="abs", names="ascii", prior_flat=False):
+                 outside_ops=True, root_form="abs", names="ascii", prior_flat=False, second_type=None):
+        self.second_type = second_type        # C19: the same root is also scheduled with this other path type
         self.prior_flat = prior_flat          # C11: a non-recursive watch with the same filter is started first
         self.root_form = root_form            # abs | rel | slash  (C19)
         self.names = names                    # ascii | utf8 | undecodable  (C19)
@@ -317,6 +318,7 @@ class Config:
                 f"{'-early' if self.early else ''}{'-split' if self.split_reads else ''}"
                 f"{'-filter=' + '+'.join(self.second_filter) if self.second_filter else ''}"
                 f"{'-priorflat' if self.prior_flat else ''}"
+                f"{'-twin:' + self.second_type if self.second_type else ''}"
                 f"{'-faults=' + repr(sorted(self.faults.items())) if self.faults else ''}")
 
 
@@ -515,6 +517,9 @@ class HistoryHarness(ex.Harness):
                 root_arg = pathlib.Path(root_arg)
             filt = [getattr(evm, n) for n in cfg.event_filter] if cfg.event_filter else None
             obs.schedule(rec_into(events), root_arg, recursive=cfg.recursive, event_filter=filt)
+            if cfg.second_type:
+                other = os.fsencode(root_arg) if cfg.second_type == "bytes" else os.fsdecode(os.fspath(root_arg))
+                obs.schedule(rec_into(events2), other, recursive=cfg.recursive)
             if cfg.second_filter and cfg.prior_flat:
                 # state shared between emitters (caches keyed by the filter) must not leak from one watch into another
                 obs.schedule(rec_into([]), O, recursive=False, event_filter=[getattr(evm, n) for n in cfg.second_filter])
@@ -1103,7 +1108,8 @@ def replay_record(rec, checks):
                  root_form="rel" if "-rel" in tag else ("slash" if "-slash" in tag else ("dot" if "-dot" in tag else "abs")),
                  names=(tag.split("-names:")[1].split("-")[0] if "-names:" in tag else "ascii"),
                  second_filter=(tag.split("-filter=")[1].split("-faults")[0].split("+") if "-filter=" in tag else None),
-                 early="-early" in tag, split_reads="-split" in tag, prior_flat="-priorflat" in tag)
+                 early="-early" in tag, split_reads="-split" in tag, prior_flat="-priorflat" in tag,
+                 second_type=(tag.split("-twin:")[1].split("-")[0] if "-twin:" in tag else None))
     hist = [(tuple(op), pace) for op, pace in rec["history"]]
     h = HistoryHarness(rec["tree0"], hist, cfg)
     a = ex.run_one(h, bytes(rec.get("prefix") or []), record_desc=True)
@@ -1502,17 +1508,29 @@ def check_paths(h, res):
     if v is None or res.errors:
         return out
     want = "bytes" if h.cfg.root_type == "bytes" else "str"
+    mp = (lambda p: p) if h.cfg.names == "prefix" else h.mapname    # prefix names are mapped back by the recorder
     m = Model(h.tree0)
-    known = {""} | {h.mapname(p) for p in m.tree}
+    known = {""} | {mp(p) for p in m.tree}
     for op, _ in h.history:
         m.apply(op)
-        known |= {h.mapname(p) for p in m.tree}
+        known |= {mp(p) for p in m.tree}
+    if h.cfg.second_type:
+        # two watches of the same directory that differ only in the path type keep their own type
+        for e in v.get("events2") or ():
+            for which, val, ty in (("src_path", e[2], e[6].split("/")[0]), ("dest_path", e[3], e[6].split("/")[1])):
+                if val is not None and ty != h.cfg.second_type:
+                    out.append(dict(kind="path-type", msg=f"second watch (root given as {h.cfg.second_type}) got {e[1]}.{which} as "
+                                                          f"{ty}; event={e}; history={h.name}",
+                                    fp=f"path-type twin watch: {which} {ty} for {h.cfg.second_type} root"))
+                    break
+            if out:
+                break
     # exact names: the created events of a single, drained operation name exactly the entries it created
     if h.cfg.recursive and len(h.history) == 1 and h.history[0][0][0] not in ("rename", "move_out", "rmtree_root"):
         m0 = Model(h.tree0)
         before = set(m0.tree)
         m0.apply(h.history[0][0])
-        new = {h.mapname(p) for p in set(m0.tree) - before}
+        new = {mp(p) for p in set(m0.tree) - before}
         created = {e[2] for e in v["events"] if e[1].endswith("CreatedEvent")}
         if created != new:
             out.append(dict(kind="path-name", msg=f"created events name {sorted(created)}, the operation created "
